@@ -573,6 +573,18 @@ theorem reinit_after_close_serves_unrecorded :
     aget 3 s.fsMap = some 1 ∧ aget 3 s.store = none := by
   decide
 
+/-- Observation (no theorem above depends on it): the `Config` field of a record is `fm.config`
+at the time of the `Mount`, and a re-`Init` that fails in a configFunc (or in construction) has
+already replaced `fm.config` while the filesystem built from the previous configuration keeps
+serving — the record of a new mount then carries configuration 2 although its owner was built
+from configuration 1.  (`restoreFuseInfo` never reads the field.) -/
+theorem failed_reinit_records_new_config_on_old_fs :
+    let nofail : Mp → Bool := fun _ => false
+    let s := run {} [.init 1 .ok nofail, .init 2 .cfgfunc nofail, .mount 0 0 true]
+    s.lastInit = some .err ∧ aget 0 s.fsMap = some 0 ∧ aget 0 s.fsCfg = some 1 ∧
+    (aget 0 s.store).map (·.cfg) = some 2 := by
+  decide
+
 /-! ### non-vacuity -/
 
 /-- A history with a failed first `Init`, a re-`Init` with live mounts, a failing restore after a
